@@ -14,6 +14,13 @@ fn coin(aux: Option<u32>) -> CoinType {
 /// exactly when thr is Some(t) and version >= t.
 macro_rules! auxpow {
     ($name:ident, $unw:expr, $version:expr, $thr:expr, $segwit_cb:expr, $b1:expr, $b2:expr) => {
+        auxpow!($name, $unw, $version, $thr, $segwit_cb, $b1, $b2, false);
+    };
+    // $zero_tail: the last hash of the coinbase branch and everything up to the end of the parent header are concrete
+    // zeros (their content is irrelevant). With long branches this keeps a *mis-aligned* parse (a change that consumes
+    // the wrong number of hashes) on concrete counts, so that it ends in a failed assertion instead of a symbolic
+    // transaction count that CBMC cannot unwind.
+    ($name:ident, $unw:expr, $version:expr, $thr:expr, $segwit_cb:expr, $b1:expr, $b2:expr, $zero_tail:expr) => {
         #[kani::proof]
         #[kani::unwind($unw)]
         #[kani::stub(crate::blockchain::proto::script::eval_from_bytes, rx::stub_eval)]
@@ -39,6 +46,11 @@ macro_rules! auxpow {
             if SECTION {
                 rx::apply(&mut buf, 80, &CB);
                 buf[B1_AT] = $b1;
+                buf[B2_AT] = $b2;
+            }
+            if SECTION && $zero_tail && $b1 > 0 {
+                let mut z = B1_AT + 1 + 32 * ($b1 - 1);
+                while z < CNT_AT { buf[z] = 0; z += 1; }
                 buf[B2_AT] = $b2;
             }
             buf[CNT_AT] = 1;
@@ -82,11 +94,13 @@ auxpow!(c12_none_high, 130, 0xffffffff, None, false, 0, 0);
 auxpow!(c12_doge_at, 130, 0x620102, Some(0x620102), false, 2, 1);
 //@ id=C12 tier=thorough name=c12_doge_below timeout=1800 role=auxpow_skip bound=version==0x620101,no-section mem=20
 auxpow!(c12_doge_below, 130, 0x620101, Some(0x620102), false, 0, 0);
-//@ id=C12 tier=thorough name=c12_nmc_max timeout=3000 role=auxpow_skip bound=version==0xffffffff,threshold-0x10101,branches-3/3 mem=24
-auxpow!(c12_nmc_max, 130, 0xffffffff, Some(0x10101), false, 3, 3);
+//@ id=C12 tier=thorough name=c12_nmc_max timeout=3000 role=auxpow_skip bound=version==0xffffffff,threshold-0x10101,branches-1/1 mem=24
+auxpow!(c12_nmc_max, 130, 0xffffffff, Some(0x10101), false, 1, 1);
+//@ id=C12 tier=extra name=c12_nmc_max_b3 timeout=7200 role=auxpow_skip bound=version==0xffffffff,threshold-0x10101,branches-3/3 mem=24
+auxpow!(c12_nmc_max_b3, 130, 0xffffffff, Some(0x10101), false, 3, 3);
 //@ id=C12 tier=thorough name=c12_none_nmcver timeout=1800 role=auxpow_skip bound=coin-without-AuxPoW,version-0x10101,no-section mem=20
 auxpow!(c12_none_nmcver, 130, 0x10101, None, false, 0, 0);
-//@ id=C12 tier=thorough name=c12_nmc_b33 timeout=7200 role=auxpow_skip bound=version==0x10101,coinbase-branch-of-33-hashes(beyond-32-tree-levels),blockchain-branch-0 mem=24 fsarr=2048
-auxpow!(c12_nmc_b33, 1400, 0x10101, Some(0x10101), false, 33, 0);
+//@ id=C12 tier=quick name=c12_nmc_b33 timeout=1500 role=auxpow_skip bound=version==0x10101,coinbase-branch-of-33-hashes(beyond-32-tree-levels),blockchain-branch-0 mem=24 fsarr=2048
+auxpow!(c12_nmc_b33, 1400, 0x10101, Some(0x10101), false, 33, 0, true);
 //@ id=C12 tier=thorough name=c12_doge_b0_b40 timeout=3600 role=auxpow_skip bound=version==0x620102,branches-0/40 mem=24 fsarr=2048
 auxpow!(c12_doge_b0_b40, 1650, 0x620102, Some(0x620102), false, 0, 40);
